@@ -148,7 +148,7 @@ Proof. reflexivity. Qed.
 (* ---------- frames built by a call ---------- *)
 Section Sim.
 Variable cfg : sdeviations.
-Let L := ps_policy cfg true.
+Let L := ps_policy cfg true false.
 Let R := py_policy.
 
 Definition frame_ok (f : frame) : Prop :=
@@ -227,7 +227,7 @@ Qed.
 
 (* ---------- capture ---------- *)
 Lemma capture_one_agree stack fr d st x : frame_ok' fr ->
-  match ps_capture_one cfg true stack fr d st x with
+  match ps_capture_one cfg true false stack fr d st x with
   | CrCell a => py_capture_one fr d x = Some a
   | CrSkip => py_capture_one fr d x = None /\ smem x (d_nonlocals d) = false
   | CrSyntaxErr => py_capture_one fr d x = None /\ smem x (d_nonlocals d) = true
@@ -277,7 +277,7 @@ Proof.
 Qed.
 
 Lemma capture_list_agree stack fr d st xs : frame_ok' fr ->
-  match ps_capture_list cfg true stack fr d st xs with
+  match ps_capture_list cfg true false stack fr d st xs with
   | CapOk cap => py_capture_list fr d xs = Some cap
   | CapErr => py_capture_list fr d xs = None
   | CapAnom _ => True
@@ -285,9 +285,9 @@ Lemma capture_list_agree stack fr d st xs : frame_ok' fr ->
 Proof.
   intros Hok. induction xs as [|x r IH]; cbn [ps_capture_list py_capture_list]; [reflexivity|].
   pose proof (capture_one_agree stack fr d st x Hok) as H1.
-  destruct (ps_capture_one cfg true stack fr d st x) as [| a | | k].
+  destruct (ps_capture_one cfg true false stack fr d st x) as [| a | | k].
   - destruct H1 as [H1 H2]. rewrite H1, H2. exact IH.
-  - rewrite H1. destruct (ps_capture_list cfg true stack fr d st r); [rewrite IH; reflexivity|rewrite IH; reflexivity|exact I].
+  - rewrite H1. destruct (ps_capture_list cfg true false stack fr d st r); [rewrite IH; reflexivity|rewrite IH; reflexivity|exact I].
   - destruct H1 as [H1 H2]. rewrite H1, H2. reflexivity.
   - exact I.
 Qed.
@@ -300,7 +300,7 @@ Lemma capture_agree stack fr d st : frame_ok' fr ->
 Proof.
   intros Hok. cbn [p_capture L R ps_policy py_policy]. unfold ps_capture, py_capture.
   pose proof (capture_list_agree stack fr d st (cand d) Hok) as H.
-  destruct (ps_capture_list cfg true stack fr d st (cand d)); [rewrite H; reflexivity|rewrite H; reflexivity|exact I].
+  destruct (ps_capture_list cfg true false stack fr d st (cand d)); [rewrite H; reflexivity|rewrite H; reflexivity|exact I].
 Qed.
 
 (* ---------- call entry ---------- *)
@@ -406,7 +406,7 @@ Proof.
 Qed.
 
 Theorem closure_equiv fuel prog :
-  (forall k, ps_run cfg true fuel prog <> Anomaly k) -> py_run fuel prog = ps_run cfg true fuel prog.
+  (forall k, ps_run cfg true false fuel prog <> Anomaly k) -> py_run fuel prog = ps_run cfg true false fuel prog.
 Proof. intros H. unfold py_run, ps_run, run_module. apply (proj2 (proj2 (sim fuel))); [exact I|exact H]. Qed.
 End Sim.
 
@@ -422,8 +422,8 @@ Qed.
 
 (* same observable outcome: tracer log, result / exception class, final global table *)
 Corollary closure_equiv_observed cfg fuel prog :
-  (forall k, ps_run cfg true fuel prog <> Anomaly k) ->
-  observe (py_run fuel prog) = observe (ps_run cfg true fuel prog).
+  (forall k, ps_run cfg true false fuel prog <> Anomaly k) ->
+  observe (py_run fuel prog) = observe (ps_run cfg true false fuel prog).
 Proof. intros H. rewrite (closure_equiv cfg fuel prog H). reflexivity. Qed.
 
 (* ---------- a non-trivial program inside the fragment ---------- *)
@@ -470,10 +470,10 @@ Definition example_prog : list stmt :=
    SAssign "d" (ECall (v "mk") [EConst 0]); SExpr (ETr (call0 "d")); SExpr (ETr (call0 "c"))].
 
 Example closure_instance :
-  observe (ps_run sdev_off true 100 example_prog)
+  observe (ps_run sdev_off true false 100 example_prog)
   = ObsOk [Some 6; Some 6; Some 16; Some 6; Some 17; Some 18; Some 1; Some 1; Some 11; Some 6; Some 12; Some 19]
           [("g", OInt 6); ("mk", OFun); ("c", OFun); ("d", OFun)]
-  /\ observe (py_run 100 example_prog) = observe (ps_run sdev_off true 100 example_prog).
+  /\ observe (py_run 100 example_prog) = observe (ps_run sdev_off true false 100 example_prog).
 Proof. split; vm_compute; reflexivity. Qed.
 
 (* ---------- where today's run-time layout parts from Python (each replayed on the real code by the check) ---------- *)
@@ -484,8 +484,8 @@ Definition prog_D300 : list stmt :=
    SDef (FDef "F3" [] [] [] [SAssign "g" (EConst 7); SDef (FDef "f4" [] [] [] [SReturn (v "g")]); SReturn (call0 "F1")]);
    SAssign "k" (call0 "F3")].
 Lemma closure_refuted_D300 :
-  observe (ps_run sdev_off false 50 prog_D300) <> observe (py_run 50 prog_D300)
-  /\ ps_run sdev_off true 50 prog_D300 = Anomaly 1.
+  observe (ps_run sdev_off false false 50 prog_D300) <> observe (py_run 50 prog_D300)
+  /\ ps_run sdev_off true false 50 prog_D300 = Anomaly 1.
 Proof. split; vm_compute; [discriminate|reflexivity]. Qed.
 
 (* def F1(): def f2(): nonlocal a; a = 5; return 0 ...; f2(); b = tr(a); a = 0; return b;  k = F1() *)
@@ -495,16 +495,16 @@ Definition prog_D301 : list stmt :=
       SExpr (call0 "f2"); SAssign "b" (ETr (v "a")); SAssign "a" (EConst 0); SReturn (v "b")]);
    SAssign "k" (call0 "F1")].
 Lemma closure_refuted_D301 :
-  observe (ps_run sdev_off false 50 prog_D301) <> observe (py_run 50 prog_D301)
-  /\ ps_run sdev_off true 50 prog_D301 = Anomaly 2.
+  observe (ps_run sdev_off false false 50 prog_D301) <> observe (py_run 50 prog_D301)
+  /\ ps_run sdev_off true false 50 prog_D301 = Anomaly 2.
 Proof. split; vm_compute; [discriminate|reflexivity]. Qed.
 
 (* def F1(): global max; return max(1, 2) ...;  k = F1()   — a declared-global name that only the builtins define *)
 Definition prog_D302 : list stmt :=
   [SDef (FDef "F1" [] ["max"] [] [SReturn (ECall (v "max") [EConst 1; EConst 2])]); SAssign "k" (call0 "F1")].
 Lemma closure_refuted_D302 :
-  observe (ps_run sdev_off false 50 prog_D302) <> observe (py_run 50 prog_D302)
-  /\ ps_run sdev_off true 50 prog_D302 = Anomaly 4.
+  observe (ps_run sdev_off false false 50 prog_D302) <> observe (py_run 50 prog_D302)
+  /\ ps_run sdev_off true false 50 prog_D302 = Anomaly 4.
 Proof. split; vm_compute; [discriminate|reflexivity]. Qed.
 
 (* the only nested def of a function sits in an except handler and captures a parameter; globals named like builtins *)
@@ -516,14 +516,14 @@ Definition prog_wraps : list stmt :=
       SReturn (ETr (v "a"))]);
    SAssign "k" (ECall (v "F1") [EConst 5])].
 Example closure_wraps_instance :
-  observe (ps_run sdev_off true 50 prog_wraps) = ObsOk [Some 12] [("abs", OInt 7); ("F1", OFun); ("k", OInt 12)]
-  /\ observe (py_run 50 prog_wraps) = observe (ps_run sdev_off true 50 prog_wraps).
+  observe (ps_run sdev_off true false 50 prog_wraps) = ObsOk [Some 12] [("abs", OInt 7); ("F1", OFun); ("k", OInt 12)]
+  /\ observe (py_run 50 prog_wraps) = observe (ps_run sdev_off true false 50 prog_wraps).
 Proof. split; vm_compute; reflexivity. Qed.
 
 (* def F1(): b = tr(min); min = 1; return 0 ...;  k = F1()   — an unassigned local of a function without inner def, named like a builtin *)
 Definition prog_D303 : list stmt :=
   [SDef (FDef "F1" [] [] [] [SAssign "b" (ETr (v "min")); SAssign "min" (EConst 1); SReturn (EConst 0)]); SAssign "k" (call0 "F1")].
 Lemma closure_refuted_D303 :
-  observe (ps_run sdev_off false 50 prog_D303) <> observe (py_run 50 prog_D303)
-  /\ ps_run sdev_off true 50 prog_D303 = Anomaly 5.
+  observe (ps_run sdev_off false false 50 prog_D303) <> observe (py_run 50 prog_D303)
+  /\ ps_run sdev_off true false 50 prog_D303 = Anomaly 5.
 Proof. split; vm_compute; [discriminate|reflexivity]. Qed.
